@@ -414,10 +414,14 @@ func c19Validate(c *c19Case, rt *route.Route, xcheck c19Xcheck, fullOnion bool) 
 		} else if c.Amt == blind.Min && blind.Min > 0 {
 			v.feats["min-tight"] = true
 		}
-		if c.Amt > blind.Max {
+		// A zero htlc_maximum means "none stated", the convention lnd uses
+		// for every max_htlc value (e.g. the link's own amount validation).
+		if blind.Max > 0 && c.Amt > blind.Max {
 			v.add("blinded-above-max-htlc", k, "payment of %d msat into a blinded path whose htlc_maximum is %d", c.Amt, blind.Max)
 		} else if c.Amt == blind.Max {
 			v.feats["max-tight"] = true
+		} else if blind.Max == 0 {
+			v.feats["blinded-max-unstated"] = true
 		}
 		// shape of the blinded hops
 		for j := k; j < n; j++ {
